@@ -34,6 +34,18 @@ NOT_APPLICABLE = {
 }
 
 PROPS = {
+    "C02": {
+        "level": "proof",
+        "level_text": "Verus discharges, for every array, every in-range index (set) and every value the random generator may return at every recursion level, that single and bulk selection return the element a full sort would place there (partition form: position i holds r, everything before is <= r, everything from i on is >= r, the array is a permutation of its input), that the bulk form returns exactly one entry per distinct requested index in strictly increasing index order; the whole call chain of src/sort.rs is verified from extracted bodies",
+        "level_note": "trusted: A-ND (1-D logical interface incl. sub-view frame), A-RNG (gen_range returns any in-range value: this is what quantifies over all pivot sequences), A-ORD, A-STD (binary_search, sort_unstable, dedup semantics, to_owned, vstd's split_at_mut), the IndexMap zip/collect expression (rewrite R8, assumed contract); bounded: enumeration of all weak-order patterns up to length 4 (quick) / 6 (thorough) under every pivot script on the real crate",
+        "technique": "Verus contracts with decreases on the extracted recursive quickselect (single and bulk) + proved order/permutation lemmas",
+        "design_ref": "DESIGN.md 4 (C02)",
+        "verus": [("sort", "N")],
+        "enum": [{"name": "select"}, {"name": "select_many"}],
+        "assumptions": [A_ND, A_RNG, A_ORD, A_STD, A_VERUS, A_EXTRACT, A_ENUM],
+        "assumed_repo_fns": ["src/sort.rs get_many_from_sorted_mut_unchecked: last expression `indexes.iter().cloned().zip(values.into_iter()).collect()` replaced by verif_zip_collect (R8) with an assumed contract; checked bounded by enum:select_many"],
+        "not_decided": [],
+    },
     "C15": {
         "level": "proof",
         "level_text": "Verus discharges, for every array length, content, pivot position and element type with a lawful order, the full postcondition of the real partition_mut body (rank = number of strictly smaller elements, pivot at k, strict/non-strict sides, permutation) and absence of panics/overflow; a bounded enumeration on the real crate doubles as witness search",
